@@ -144,6 +144,36 @@ def genSteps (o : Oracle) : Nat → Gen → Cnt → List Json
     | .indexError _ => [Json.str "IndexError"]
     | .item act id conf g1 c1 => arr [actJson act, optInt id, toJson conf] :: genSteps o k g1 c1
 
+def getOptBool (j : Json) (k : String) : Except String (Option Bool) :=
+  match j.getObjVal? k with
+  | .ok Json.null => .ok none
+  | .ok (Json.bool b) => .ok (some b)
+  | .ok _ => .error s!"field {k}: expected bool or null"
+  | .error _ => .ok none
+
+/-- the corpora of a track specification: per corpus {"meta", "idx", "ds", "docs": [{"lines", "docs", "meta", "idx", "ds"}]};
+    a setting is null when its key is absent; index / data-stream names travel as positions in the declared lists -/
+def getSpecs (a : Json) : Except String (List (CorpusSpec Nat)) := do
+  let cs ← getArr a "specs"
+  let mut out : List (CorpusSpec Nat) := []
+  let mut k := 0
+  for c in cs do
+    let ds ← getArr c "docs"
+    let mut docs : List (DocSpec Nat) := []
+    for d in ds do
+      let nl ← getNat d "lines"
+      let nd ← getNat d "docs"
+      let m ← getOptBool d "meta"
+      let i ← getOptNat d "idx"
+      let s ← getOptNat d "ds"
+      docs := docs ++ [⟨List.range' (k * base) nl, nd, m, i, s⟩]
+      k := k + 1
+    let m ← getOptBool c "meta"
+    let i ← getOptNat c "idx"
+    let s ← getOptNat c "ds"
+    out := out ++ [⟨m, i, s, docs⟩]
+  return out
+
 def handle (op : String) (a : Json) : Except String Json := do
   match op with
   | "bounds" =>
@@ -266,6 +296,23 @@ def handle (op : String) (a : Json) : Except String Json := do
         [if cols.length > 1 then "several-columns" else "one-column",
          if cols.any (fun col => col.1.any (fun en => match en with | .task s _ _ _ => s.id != t | _ => false)) then "operation-shared-in-column" else "operation-not-shared",
          if cols.any (fun col => col.1.any (fun en => match en with | .task s _ _ tot => s.clients != tot | _ => false)) then "inside-parallel" else "own-element"]
+  | "spec" =>
+    -- TrackSpecificationReader._create_corpora: what the document sets of a track specification are loaded as
+    let specs ← getSpecs a
+    let indices ← getNatList a "indices"
+    let streams ← getNatList a "streams"
+    match resolveCorpora indices streams specs with
+    | none => return err "TrackSyntaxError"
+    | some corpora =>
+      let overridden := specs.any fun c => c.documents.any fun d => d.withMeta.isSome && c.withMeta.isSome && d.withMeta != c.withMeta
+      let falseUnderTrue := specs.any fun c => c.documents.any fun d => d.withMeta == some false && c.withMeta == some true
+      let inherited := specs.any fun c => c.documents.any fun d => d.withMeta.isNone && c.withMeta.isSome
+      return ok (arr (corpora.map fun c => arr (c.map fun d => Json.mkObj [("meta", toJson d.withMeta), ("ds", toJson d.dataStream),
+                                                                            ("docs", toJson d.numDocs), ("lines", toJson d.lines.length)])))
+        [if falseUnderTrue then "doc-false-under-corpus-true" else if overridden then "doc-true-under-corpus-false" else "no-override",
+         if inherited then "inherits-corpus-level" else "nothing-inherited",
+         if streams.isEmpty then (if indices.length = 1 then "one-index" else if indices.isEmpty then "no-targets" else "several-indices")
+         else (if streams.length = 1 then "one-data-stream" else "several-data-streams")]
   | "table" =>
     let bs ← getBytes a "bytes"; let every ← getNat a "every"
     let r := prepareOffsetTable every bs
